@@ -1,10 +1,13 @@
 import TracklibVerif.Model.PDict
+import TracklibVerif.Lemmas.Heapq
 import Mathlib.Order.Defs.LinearOrder
 import Mathlib.Order.Basic
 /-! `priority_dict.pop_smallest` returns the key with the smallest `(priority, key)` among the current dict
-entries, whatever stale entries the heap holds, provided every dict entry has its heap entry (`HInv`),
-which `priority_dict(d)`, `__setitem__` and `pop_smallest` maintain. -/
+entries, whatever stale entries the heap holds, provided every dict entry has its heap entry and `_heap` is a
+binary heap (`HInv`), which `priority_dict(d)` (`heapify`), `__setitem__` (`heappush` / rebuild) and `pop_smallest`
+(`heappop`) maintain. The `heapq` facts come from `Lemmas/Heapq.lean`. -/
 namespace TV.PDict
+open TV.Heapq
 variable {W : Type} [LinearOrder W]
 
 /-- tuple order `(v, k) ≤ (v', k')` -/
@@ -44,61 +47,26 @@ theorem tlt_false {a b : W × Nat} (h : tlt b a = false) : tle a b := by
     · rw [h'] at h2; exact absurd h2 (lt_irrefl _)
     · exact Or.inr ⟨h', Nat.le_of_not_lt h2⟩
 
-theorem extractMin_none (l : List (W × Nat)) : extractMin l = none ↔ l = [] := by
-  cases l with
-  | nil => simp [extractMin]
-  | cons a r =>
-    simp only [extractMin]
-    cases extractMin r with
-    | none => simp
-    | some p => obtain ⟨b, r'⟩ := p; simp only []; split <;> simp
+theorem tlt_of_tle {a b : W × Nat} (h : tle a b) : tlt b a = false := by
+  simp only [tlt, Bool.or_eq_false_iff, decide_eq_false_iff_not, Bool.and_eq_false_iff, Bool.not_eq_false',
+    decide_eq_true_eq]
+  rcases h with h | ⟨h1, h2⟩
+  · exact ⟨not_lt.mpr (le_of_lt h), Or.inl h⟩
+  · exact ⟨by rw [h1]; exact lt_irrefl _, Or.inr (by omega)⟩
 
-theorem extractMin_spec (l : List (W × Nat)) (m : W × Nat) (rest : List (W × Nat))
-    (h : extractMin l = some (m, rest)) :
-    (∀ x, x ∈ l ↔ (x = m ∨ x ∈ rest)) ∧ rest.length + 1 = l.length ∧ ∀ x ∈ l, tle m x := by
-  induction l generalizing m rest with
-  | nil => simp [extractMin] at h
-  | cons a r ih =>
-    simp only [extractMin] at h
-    cases hr : extractMin r with
-    | none =>
-      rw [hr] at h
-      simp only [Option.some.injEq, Prod.mk.injEq] at h
-      obtain ⟨rfl, rfl⟩ := h
-      have : r = [] := (extractMin_none r).1 hr
+/-- Python's tuple order on `(priority, key)` is a strict weak (indeed total) order: what `heapq` needs -/
+theorem tlt_ord : Ord (tlt (W := W)) := by
+  constructor
+  · intro a b h
+    have h1 := tlt_true h
+    cases h2 : tlt b a with
+    | false => rfl
+    | true =>
+      have := tle_antisymm h1 (tlt_true h2)
       subst this
-      refine ⟨fun x => by simp, rfl, fun x hx => ?_⟩
-      simp only [List.mem_singleton] at hx
-      rw [hx]; exact tle_refl _
-    | some p =>
-      obtain ⟨b, r'⟩ := p
-      rw [hr] at h
-      obtain ⟨i1, i2, i3⟩ := ih b r' hr
-      simp only [] at h
-      by_cases hlt : tlt b a = true
-      · simp only [hlt, if_true, Option.some.injEq, Prod.mk.injEq] at h
-        obtain ⟨rfl, rfl⟩ := h
-        refine ⟨fun x => ?_, by simp [← i2], fun x hx => ?_⟩
-        · simp only [List.mem_cons, i1 x]
-          constructor
-          · rintro (h | h | h)
-            · exact Or.inr (Or.inl h)
-            · exact Or.inl h
-            · exact Or.inr (Or.inr h)
-          · rintro (h | h | h)
-            · exact Or.inr (Or.inl h)
-            · exact Or.inl h
-            · exact Or.inr (Or.inr h)
-        · rcases List.mem_cons.mp hx with h | h
-          · rw [h]; exact tlt_true hlt
-          · exact i3 x h
-      · have hlt' : tlt b a = false := by cases h' : tlt b a <;> simp_all
-        simp only [hlt', Bool.false_eq_true, if_false, Option.some.injEq, Prod.mk.injEq] at h
-        obtain ⟨rfl, rfl⟩ := h
-        refine ⟨fun x => by simp, rfl, fun x hx => ?_⟩
-        rcases List.mem_cons.mp hx with h | h
-        · rw [h]; exact tle_refl _
-        · exact tle_trans (tlt_false hlt') (i3 x h)
+      simp [tlt] at h
+  · intro a b c h1 h2
+    exact tlt_of_tle (tle_trans (tlt_false h1) (tlt_false h2))
 
 theorem lookup_filter_ne (l : List (Nat × W)) (k k' : Nat) :
     lookup (l.filter (fun p => p.1 ≠ k)) k' = if k' = k then none else lookup l k' := by
@@ -140,40 +108,44 @@ theorem current_iff (dict : List (Nat × W)) (k : Nat) (v : W) : current dict k 
     · rintro ⟨h1, h2⟩; exact le_antisymm (not_lt.mp h2) (not_lt.mp h1)
     · intro h; rw [h]; exact ⟨lt_irrefl _, lt_irrefl _⟩
 
-/-- every current dict entry has its heap entry -/
-def HInv (pd : PD W) : Prop := ∀ k v, lookup pd.dict k = some v → (v, k) ∈ pd.heap
+/-- every current dict entry has its heap entry, and `_heap` is a binary heap in tuple order -/
+def HInv (pd : PD W) : Prop := (∀ k v, lookup pd.dict k = some v → (v, k) ∈ pd.heap) ∧ IsHeap tlt pd.heap
 
 theorem popLoop_spec (dict : List (Nat × W)) (f : Nat) (heap : List (W × Nat)) (hf : heap.length < f)
-    (hinv : ∀ k v, lookup dict k = some v → (v, k) ∈ heap) (k0 : Nat) (v0 : W) (h0 : lookup dict k0 = some v0) :
+    (hinv : ∀ k v, lookup dict k = some v → (v, k) ∈ heap) (hheap : IsHeap tlt heap)
+    (k0 : Nat) (v0 : W) (h0 : lookup dict k0 = some v0) :
     ∃ k v rest, popLoop dict f heap = some (k, rest) ∧ lookup dict k = some v ∧
       (∀ k' v', lookup dict k' = some v' → tle (v, k) (v', k')) ∧
-      (∀ k' v', k' ≠ k → lookup dict k' = some v' → (v', k') ∈ rest) := by
+      (∀ k' v', k' ≠ k → lookup dict k' = some v' → (v', k') ∈ rest) ∧ IsHeap tlt rest := by
   induction f generalizing heap with
   | zero => omega
   | succ f ih =>
     unfold popLoop
-    cases hm : extractMin heap with
+    cases hm : heappop tlt heap with
     | none =>
-      have := (extractMin_none heap).1 hm
+      have := (heappop_none tlt heap).1 hm
       have h := hinv k0 v0 h0
       rw [this] at h; cases h
     | some p =>
       obtain ⟨m, rest⟩ := p
-      obtain ⟨e1, e2, e3⟩ := extractMin_spec heap m rest hm
+      obtain ⟨e1, e2, e3, _⟩ := heappop_spec tlt_ord heap hheap m rest hm
+      have elen : rest.length + 1 = heap.length := by rw [e1.length_eq]; simp
+      have emem : ∀ x, x ∈ heap → x = m ∨ x ∈ rest := by
+        intro x hx; have := (e1.mem_iff).1 hx; simpa using this
       simp only []
       by_cases hc : current dict m.2 m.1 = true
       · simp only [hc, if_true]
         have hl := (current_iff dict m.2 m.1).1 hc
-        refine ⟨m.2, m.1, rest, rfl, hl, ?_, ?_⟩
-        · intro k' v' h; exact e3 _ (hinv k' v' h)
+        refine ⟨m.2, m.1, rest, rfl, hl, ?_, ?_, e2⟩
+        · intro k' v' h; exact tlt_false (e3 _ (hinv k' v' h))
         · intro k' v' hne h
-          rcases (e1 _).1 (hinv k' v' h) with h' | h'
+          rcases emem _ (hinv k' v' h) with h' | h'
           · exact absurd (congrArg Prod.snd h') hne
           · exact h'
       · simp only [hc, Bool.false_eq_true, if_false]
-        apply ih rest (by omega)
+        apply ih rest (by omega) _ e2
         intro k v h
-        rcases (e1 _).1 (hinv k v h) with h' | h'
+        rcases emem _ (hinv k v h) with h' | h'
         · exfalso; apply hc
           rw [current_iff, ← h']; exact h
         · exact h'
@@ -184,8 +156,9 @@ theorem popSmallest_spec (pd : PD W) (hinv : HInv pd) (k0 : Nat) (v0 : W) (h0 : 
     ∃ k v pd', popSmallest pd = some (k, pd') ∧ lookup pd.dict k = some v ∧
       (∀ k' v', lookup pd.dict k' = some v' → tle (v, k) (v', k')) ∧
       (∀ k', lookup pd'.dict k' = if k' = k then none else lookup pd.dict k') ∧ HInv pd' := by
-  obtain ⟨k, v, rest, h1, h2, h3, h4⟩ := popLoop_spec pd.dict (pd.heap.length + 1) pd.heap (by omega) hinv k0 v0 h0
-  refine ⟨k, v, _, by unfold popSmallest; rw [h1], h2, h3, fun k' => lookup_filter_ne _ _ _, ?_⟩
+  obtain ⟨k, v, rest, h1, h2, h3, h4, h5⟩ :=
+    popLoop_spec pd.dict (pd.heap.length + 1) pd.heap (by omega) hinv.1 hinv.2 k0 v0 h0
+  refine ⟨k, v, _, by unfold popSmallest; rw [h1], h2, h3, fun k' => lookup_filter_ne _ _ _, ?_, h5⟩
   intro k' v' h
   simp only [lookup_filter_ne] at h
   split at h
@@ -201,33 +174,58 @@ theorem popSmallest_none (pd : PD W) (hinv : HInv pd) (h : popSmallest pd = none
     obtain ⟨k, v, pd', h1, _⟩ := popSmallest_spec pd hinv a w (by rw [hd]; simp [lookup])
     rw [h] at h1; cases h1
 
-theorem ofDict_inv (dict : List (Nat × W)) : HInv (ofDict dict) := by
+theorem rebuild_spec (dict : List (Nat × W)) :
+    (∀ k v, lookup dict k = some v → (v, k) ∈ rebuild dict) ∧ IsHeap tlt (rebuild dict) := by
+  obtain ⟨a, b⟩ := heapify_spec tlt_ord (dict.map (fun p => (p.2, p.1)))
+  refine ⟨?_, a⟩
   intro k v h
-  simp only [ofDict, rebuild, List.mem_map]
+  unfold rebuild
+  rw [b.mem_iff]
+  simp only [List.mem_map]
   exact ⟨(k, v), lookup_mem _ _ _ h, rfl⟩
+
+theorem ofDict_inv (dict : List (Nat × W)) : HInv (ofDict dict) := rebuild_spec dict
+
+theorem lookup_dictSet (l : List (Nat × W)) (k k' : Nat) (v : W) :
+    lookup (dictSet l k v) k' = if k' = k then some v else lookup l k' := by
+  induction l with
+  | nil =>
+    simp only [dictSet, lookup]
+    by_cases h : k = k'
+    · simp [h]
+    · have : ¬ k' = k := fun h' => h h'.symm
+      simp [h, this]
+  | cons p r ih =>
+    obtain ⟨a, w⟩ := p
+    simp only [dictSet]
+    by_cases ha : a = k
+    · subst ha
+      simp only [if_true, lookup]
+      by_cases h : a = k'
+      · simp [h]
+      · have : ¬ k' = a := fun h' => h h'.symm
+        simp [h, this]
+    · simp only [ha, if_false, lookup, ih]
+      by_cases h : a = k'
+      · have : ¬ k' = k := by rw [← h]; exact ha
+        simp [h, this]
+      · simp [h]
 
 /-- `pd[k] = v` sets the entry, leaves the others, and keeps the heap invariant (push or rebuild) -/
 theorem setitem_spec (pd : PD W) (hinv : HInv pd) (k : Nat) (v : W) :
     (∀ k', lookup (setitem pd k v).dict k' = if k' = k then some v else lookup pd.dict k') ∧ HInv (setitem pd k v) := by
-  have hl : ∀ k', lookup ((k, v) :: pd.dict.filter (fun p => p.1 ≠ k)) k' = if k' = k then some v else lookup pd.dict k' := by
-    intro k'
-    simp only [lookup, lookup_filter_ne]
-    by_cases hk : k = k'
-    · simp [hk]
-    · have : ¬ k' = k := fun h => hk h.symm
-      simp [hk, this]
+  have hl := lookup_dictSet pd.dict k (v := v)
   unfold setitem
   simp only []
   split
-  · refine ⟨hl, ?_⟩
+  · obtain ⟨p1, p2⟩ := heappush_spec tlt_ord pd.heap (v, k) hinv.2
+    refine ⟨fun k' => hl k', ?_, p1⟩
     intro k' v' h
-    simp only [] at h
+    simp only [] at h ⊢
     rw [hl k'] at h
+    rw [p2.mem_iff]
     split at h
     · rename_i hk; cases h; rw [hk]; exact List.mem_cons_self
-    · exact List.mem_cons_of_mem _ (hinv k' v' h)
-  · refine ⟨hl, ?_⟩
-    intro k' v' h
-    simp only [rebuild, List.mem_map]
-    exact ⟨(k', v'), lookup_mem _ _ _ h, rfl⟩
+    · exact List.mem_cons_of_mem _ (hinv.1 k' v' h)
+  · exact ⟨fun k' => hl k', rebuild_spec _⟩
 end TV.PDict
